@@ -262,7 +262,15 @@ fn parse_v_model_directive(
     if let Expr::Array(ArrayLit { elems, .. }) = attr_value {
         value = match elems.first() {
             Some(Some(ExprOrSpread { spread: None, expr })) => (**expr).clone(),
-            _ => Expr::Ident(quote_ident!("").into()),
+            _ => {
+                HANDLER.with(|handler| {
+                    handler.span_err(
+                        jsx_attr.span,
+                        "The first element of the array passed to `v-model` must be the bound value.",
+                    );
+                });
+                Expr::Ident(quote_ident!("").into())
+            }
         };
         if let Some(Some(ExprOrSpread { spread: None, expr })) = elems.get(1) {
             match &**expr {
@@ -296,6 +304,15 @@ fn parse_v_model_directive(
     } else {
         modifiers = Some(splitted_attr_name.map(Atom::from).collect());
         value = attr_value.clone();
+    }
+
+    if !is_assignment_target(&value) && !matches!(&value, Expr::Ident(ident) if ident.sym.is_empty()) {
+        HANDLER.with(|handler| {
+            handler.span_err(
+                jsx_attr.span,
+                "The value of `v-model` must be a valid assignment target.",
+            );
+        });
     }
 
     Directive::VModel(VModelDirective {
@@ -348,6 +365,19 @@ fn transform_modifiers(modifiers: BTreeSet<Atom>, quote_prop: bool) -> Option<Ex
                 })
                 .collect(),
         }))
+    }
+}
+
+fn is_assignment_target(expr: &Expr) -> bool {
+    match expr {
+        Expr::Ident(ident) => !ident.sym.is_empty(),
+        Expr::Member(..) | Expr::SuperProp(..) => true,
+        Expr::Paren(ParenExpr { expr, .. })
+        | Expr::TsAs(TsAsExpr { expr, .. })
+        | Expr::TsNonNull(TsNonNullExpr { expr, .. })
+        | Expr::TsTypeAssertion(TsTypeAssertion { expr, .. })
+        | Expr::TsSatisfies(TsSatisfiesExpr { expr, .. }) => is_assignment_target(expr),
+        _ => false,
     }
 }
 
